@@ -361,6 +361,25 @@ func ruleC10R3(r *Run) {
 	}
 	r.Check("(*T).cleanup#call-unlocked", v.callback.Instr.Pos(), len(v.ls[v.callback.Instr.(ssa.Instruction)]) == 0, "the callback is called outside the critical section (it may call t.Cleanup / t.Context)", "the cleanup callback is called while t.mu is held: a callback calling t.Cleanup or t.Failed deadlocks")
 	r.Check("(*T).cleanup#exit-only-when-empty", ph.Pos(), okNil && holds(p.facts(v.callback.Instr), p.expr(ph), "!=", "nil"), "the loop ends only when the stack is empty; otherwise the popped callback is called", "the callback loop can end while callbacks remain, or a nil callback can be called")
+	// every return of cleanup (not only the loop exit) is reached only with an empty stack
+	for _, ret := range returnsOf(v.fn) {
+		sets := p.pathConds(v.fn, ret.Block(), func(rl rel) bool {
+			return (rl.X == p.expr(ph) && rl.Y == "nil") || rl.X == "builtin:len($t.cleanups)"
+		})
+		okAll := len(sets) > 0
+		for _, set := range sets {
+			ok := false
+			for _, lit := range set {
+				if lit == p.expr(ph)+" == nil" || lit == "builtin:len($t.cleanups) <= 0" || lit == "builtin:len($t.cleanups) == 0" {
+					ok = true
+				}
+			}
+			if !ok {
+				okAll = false
+			}
+		}
+		r.Check("(*T).cleanup#return-only-when-empty", ret.Pos(), okAll, "this return is reached only after the stack was found empty", "(*T).cleanup can return on a path that never found the cleanup stack empty (early return): registered cleanups are dropped, e.g. when cleanup is re-entered after a panicking callback")
+	}
 	// loop: callback call returns to the pop
 	r.Check("(*T).cleanup#loop", v.callback.Instr.Pos(), reachable(v.callback.Instr, elem, nil), "after a callback the next one is popped", "the callback loop does not continue after the first callback")
 }
@@ -597,69 +616,154 @@ func ruleC11R1(r *Run) {
 		"cancelCtx": "cleared by cleanup when set (C10-R2)",
 		"cleaning":  "reset by the deferred Store(false) of cleanup (C10-R2)",
 	}
-	n := 0
-	for _, fn := range p.FuncList {
-		name := p.fnName(fn)
-		for _, cs := range p.callsTo(fn, "checkOnce") {
-			n++
-			construct := name + "#checkOnce"
-			tv := p.resolve(cs.Common.Args[0])
-			nt, isNew := tv.(*ssa.Call)
-			if isNew && p.calleeKey(nt.Common()) != "newT" {
-				isNew = false
-			}
-			fresh := false
-			why := "the T operand is " + p.expr(tv)
-			if isNew && nt.Parent() == fn {
-				// exactly one bracket use, and created in the same iteration
-				uses := 0
-				for _, u := range usesOf(p, nt) {
-					if c, ok := u.(ssa.CallInstruction); ok && p.calleeKey(c.Common()) == "checkOnce" {
+	// judge one use of a T as the subject of a bracket invocation: `at` is the call (for parameter brackets) or the
+	// first hand-off of the T (for local brackets)
+	judge := func(construct string, fn *ssa.Function, tv ssa.Value, at ssa.Instruction, bracketKeys map[string]bool) {
+		nt, isNew := tv.(*ssa.Call)
+		if isNew && p.calleeKey(nt.Common()) != "newT" {
+			isNew = false
+		}
+		fresh := false
+		why := "the T is " + p.expr(tv) + " (not the result of newT in this function)"
+		if isNew && nt.Parent() == fn {
+			uses := 0
+			for _, u := range usesOf(p, nt) {
+				if c, ok := u.(ssa.CallInstruction); ok && bracketKeys[p.calleeKey(c.Common())] {
+					if _, isDefer := u.(*ssa.Defer); !isDefer || p.calleeKey(c.Common()) == "(*T).cleanup" {
 						uses++
 					}
 				}
-				loopCall := innermostLoop(cs.Instr)
-				loopNew := innermostLoop(nt)
-				switch {
-				case uses != 1:
-					why = fmt.Sprintf("the same T is passed to %d checkOnce calls", uses)
-				case loopCall != nil && (loopNew == nil || !loopCall.Body[nt.Block()]):
-					why = "the T is created outside the loop that calls checkOnce repeatedly"
-				case !dominates(nt, cs.Instr):
-					why = "newT does not dominate the call"
-				default:
-					fresh = true
-				}
 			}
-			if fresh {
-				r.OK(construct, cs.Instr.Pos(), "fresh T: created by newT in the same iteration, used for this invocation only")
+			loopCall := innermostLoop(at)
+			switch {
+			case uses != 1:
+				why = fmt.Sprintf("the same T is the subject of %d bracket invocations", uses)
+			case loopCall != nil && !loopCall.Body[nt.Block()]:
+				why = "the T is created outside the loop that runs the bracket repeatedly"
+			case !dominates(nt, at):
+				why = "newT does not dominate the invocation"
+			default:
+				fresh = true
+			}
+		}
+		if fresh {
+			r.OK(construct, at.Pos(), "fresh T: created by newT in the same iteration, used for this invocation only")
+			return
+		}
+		for _, f := range fields {
+			if reason, ok := restoredByCleanup[f]; ok {
+				r.OK(construct+":"+f, at.Pos(), "reused T ("+why+"); "+f+" is restored by the bracket: "+reason)
 				continue
 			}
-			// reused: every per-case field must be reset
-			for _, f := range fields {
-				if reason, ok := restoredByCleanup[f]; ok {
-					r.OK(construct+":"+f, cs.Instr.Pos(), "reused T ("+why+"); "+f+" is restored by the bracket: "+reason)
-					continue
-				}
-				// explicit zero store dominating the call in the same loop
-				reset := false
+			reset := false
+			zeroStore := func(g *ssa.Function, isT func(ssa.Value) bool, mustDominate ssa.Instruction) bool {
 				for _, fa := range p.fieldAccesses("T") {
-					if fa.Fn != fn || fa.Field != f || fa.Kind != "write" {
+					if fa.Fn != g || fa.Field != f || fa.Kind != "write" {
 						continue
 					}
 					st := fa.Instr.(*ssa.Store)
-					if p.resolve(fa.FA.X) == tv && isZero(p.resolve(st.Val)) && dominates(st, cs.Instr) {
-						if l := innermostLoop(cs.Instr); l == nil || l.Body[st.Block()] {
-							reset = true
+					if isT(p.resolve(fa.FA.X)) && overwrites(p, st, f) && (mustDominate == nil || dominates(st, mustDominate)) {
+						if mustDominate == nil {
+							// in a callee: the store must be on every path
+							if escapesFromEntry(g, func(in ssa.Instruction) bool { return in == ssa.Instruction(st) }, false) == nil {
+								return true
+							}
+							continue
+						}
+						if l := innermostLoop(mustDominate); l == nil || l.Body[st.Block()] {
+							return true
 						}
 					}
 				}
-				r.Check(construct+":"+f, cs.Instr.Pos(), reset, "reused T; "+f+" is reset before the invocation",
-					"per-test-case field T."+f+" carries over between test cases: "+why+", and "+f+" is not reset before checkOnce")
+				return false
+			}
+			if zeroStore(fn, func(v ssa.Value) bool { return v == tv }, at) {
+				reset = true
+			}
+			// one level of helper: a call on the T that dominates the invocation and resets the field on every path
+			if !reset {
+				for _, cs := range p.calls(fn) {
+					sc := cs.Common.StaticCallee()
+					if sc == nil || !p.inRapid(sc) || sc.Blocks == nil || cs.isDefer() || !dominates(cs.Instr, at) {
+						continue
+					}
+					if l := innermostLoop(at); l != nil && !l.Body[cs.Instr.Block()] {
+						continue
+					}
+					for i, a := range cs.Common.Args {
+						if p.resolve(a) == tv && i < len(sc.Params) {
+							pi := sc.Params[i]
+							if zeroStore(sc, func(v ssa.Value) bool { return v == ssa.Value(pi) }, nil) {
+								reset = true
+							}
+						}
+					}
+				}
+			}
+			r.Check(construct+":"+f, at.Pos(), reset, "reused T; "+f+" is reset before the invocation",
+				"per-test-case field T."+f+" carries over between invocations: "+why+", and "+f+" is not reset before the invocation")
+		}
+	}
+	bs := r.brackets()
+	n := 0
+	for _, b := range bs {
+		if par, isParam := b.X.(*ssa.Parameter); isParam {
+			// judged at every call site of the bracket function
+			idx := 0
+			for i, q := range b.fn.Params {
+				if q == par {
+					idx = i
+				}
+			}
+			keys := map[string]bool{b.name: true}
+			for _, fn := range p.FuncList {
+				for _, cs := range p.callsTo(fn, b.name) {
+					if b.name == "example" {
+						r.OK(p.fnName(fn)+"#"+b.name, cs.Instr.Pos(), "Example path: retries on one T by design (not a Check test case)")
+						continue
+					}
+					n++
+					judge(p.fnName(fn)+"#"+b.name, fn, p.resolve(cs.Common.Args[idx]), cs.Instr, keys)
+				}
+			}
+			continue
+		}
+		// local bracket: the T must be fresh in this invocation of the function
+		n++
+		at := ssa.Instruction(b.cleanup)
+		judge(b.name, b.fn, b.X, at, map[string]bool{"(*T).cleanup": true})
+	}
+	r.Floor("bracket invocations judged", n, 9)
+}
+
+// overwrites: the store replaces the field by a value that does not derive from the field's previous content.
+func overwrites(p *Program, st *ssa.Store, field string) bool {
+	if isZero(p.resolve(st.Val)) {
+		return true
+	}
+	derives := false
+	seen := map[ssa.Value]bool{}
+	var walk func(v ssa.Value, d int)
+	walk = func(v ssa.Value, d int) {
+		if v == nil || seen[v] || d > 8 {
+			return
+		}
+		seen[v] = true
+		if u, ok := v.(*ssa.UnOp); ok {
+			if fa, ok := u.X.(*ssa.FieldAddr); ok && p.fieldAddrOwner(fa) == "T" && fieldAddrName(fa) == field {
+				derives = true
+			}
+		}
+		if in, ok := v.(ssa.Instruction); ok {
+			for _, op := range in.Operands(nil) {
+				if *op != nil {
+					walk(*op, d+1)
+				}
 			}
 		}
 	}
-	r.Floor("checkOnce call sites", n, 8)
+	walk(st.Val, 0)
+	return !derives
 }
 
 func isZero(v ssa.Value) bool {
